@@ -1919,6 +1919,8 @@ func (ctx *RenderContext) ToString(val interface{}) string {
 		return string(v)
 	case fmt.Stringer:
 		return v.String()
+	case error:
+		return v.Error()
 	case Node:
 		// a bare macro or other node value has no text of its own
 		return ""
